@@ -15,7 +15,7 @@ theorem goodMk_LS (t : IntTy) (v : Nat) (c : Expr) (b : List Stmt)
     (hcb : findWhile Code.fn_ShmReader__snapshot_stmts = some (c, b)) : GoodMk (LS t v) := by
   first
   | (exfalso; simp [rs_eval] at hcb; done)
-  | (intro k g1 cg cache lg pos; simp [LSg, probeEnv, loopPrefix, probeInp, relabel, rs_eval, rs_code, rawInp, readerValue, wordsValue, envGet])
+  | (intro k g1 cg cache lg pos; simp [LSg, probeEnv, probeSt, loopPrefix, probeInp, relabel, rs_eval, rs_code, rawInp, readerValue, wordsValue, envGet])
 
 set_option maxRecDepth 8000 in
 /-- the loop condition `retries > 0` on a positive budget -/
@@ -31,7 +31,7 @@ theorem cond_succ (inp : Nat → Nat) (nowNs : Int) (sizes : List (String × Nat
      obtain ⟨rfl, rfl⟩ := hcb
      obtain ⟨M, rfl⟩ := Nat.exists_eq_add_of_le' hN
      have h : (0 : Int) < (k : Int) + 1 := by omega
-     rcases ht with rfl | rfl <;> simp [rs_eval, rs_code, LSg, probeEnv, loopPrefix, probeInp, relabel, rawInp, readerValue, wordsValue, sfr, h])
+     rcases ht with rfl | rfl <;> simp [rs_eval, rs_code, LSg, probeEnv, probeSt, loopPrefix, probeInp, relabel, rawInp, readerValue, wordsValue, sfr, h])
 
 set_option maxRecDepth 8000 in
 /-- … and on an exhausted one -/
@@ -46,7 +46,7 @@ theorem cond_zero (inp : Nat → Nat) (nowNs : Int) (sizes : List (String × Nat
   | (simp [rs_eval] at hcb
      obtain ⟨rfl, rfl⟩ := hcb
      obtain ⟨M, rfl⟩ := Nat.exists_eq_add_of_le' hN
-     rcases ht with rfl | rfl <;> simp [rs_eval, rs_code, LSg, probeEnv, loopPrefix, probeInp, relabel, rawInp, readerValue, wordsValue, sfr])
+     rcases ht with rfl | rfl <;> simp [rs_eval, rs_code, LSg, probeEnv, probeSt, loopPrefix, probeInp, relabel, rawInp, readerValue, wordsValue, sfr])
 
 set_option maxRecDepth 8000 in
 set_option maxHeartbeats 2000000 in
@@ -62,10 +62,10 @@ theorem iter_eq (inp : Nat → Nat) (nowNs : Int) (sizes : List (String × Nat))
     = if g1 = typedInp inp (pos + SL.N) then
         .ret (.enumv "Ok" [wordsValue (SL.attemptCells (typedInp inp) pos)])
           (LS t v (k + 1) g1 g1 (SL.attemptCells (typedInp inp) pos)
-            (lg ++ (SL.attemptAccs {} (typedInp inp) pos).map accValue) (pos + SL.N + 1))
+            (lg ++ (SL.attemptAccs snapAnn (typedInp inp) pos).map accValue) (pos + SL.N + 1))
       else
         next (LS .i32 v k (if typedInp inp (pos + SL.N) % 2 = 0 then typedInp inp (pos + SL.N) else g1) cg cache
-          (lg ++ (SL.attemptAccs {} (typedInp inp) pos).map accValue) (pos + SL.N + 1)) := by
+          (lg ++ (SL.attemptAccs snapAnn (typedInp inp) pos).map accValue) (pos + SL.N + 1)) := by
   first
   | (exfalso; simp [rs_eval] at hcb; done)
   | (simp [rs_eval] at hcb
@@ -75,9 +75,11 @@ theorem iter_eq (inp : Nat → Nat) (nowNs : Int) (sizes : List (String × Nat))
      have hhi : (k : Int) ≤ IntTy.hi .i32 := by show (k : Int) ≤ 2147483647; omega
      have hchk : ∀ st, chkInt .i32 (k : Int) st = .val (.int .i32 k) st :=
        fun st => chkInt_ok .i32 k st (by decide) hlo hhi
+     eval_bodyLog hbl
      rcases ht with rfl | rfl <;>
-     · simp [rs_eval, rs_code, LSg, probeEnv, loopPrefix, probeInp, relabel, sfr, rawInp, readerValue, wordsValue, readWords_attempt inp hpos,
-         typedInp_gen2 inp hpos, wordLoads_attempt, hchk, SL.attemptAccs, accValue, locValue, locTy, ordValue]
+     · simp [rs_eval, rs_code, LSg, probeEnv, probeSt, loopPrefix, probeInp, relabel, sfr, rawInp, readerValue, wordsValue,
+         readWords_attempt inp hpos, typedInp_gen2 inp hpos, wordLoads_attempt, hchk, SL.attemptAccs, accValue, locValue,
+         locTy, ordValue, snapAnn, hbl, evOrd, isFenceEv, lastOf, ordOfValue, evLoad, evFence]
        split_ifs <;> simp_all <;> omega)
 
 /-- the loop of `ShmReader::snapshot` with a budget of `k` retries, for every fuel ≥ `k + 31` -/
